@@ -83,6 +83,15 @@ CHECKS = {
          'catalogue x 9 condition forms and on random trees; @media inside mixin bodies (two callers, rule used as mixin, caller inside @media) '
          'is checked against inlining by the oracle.'),
    note=BASE_NOTE + ' Comma-separated outer queries combined with a nested @media are outside the condition forms the property lists (the pinned code keeps only the first alternative).'),
+ 'C19': dict(category='proof',
+   technique='Lean 4: model of at-rule block evaluation/printing, structure-preservation theorem by mutual induction; differential correspondence over all vendor spellings and contexts',
+   text=('C19_item/C19_list: on every sheet without empty blocks (any number of items, keyframes with any number of frames and any frame '
+         'selectors, @font-face/@viewport declaration lists, ordinary rules, @media bodies nested to any depth) evaluation returns the same '
+         'items in the same order with the same keywords, names, frame selectors and declaration names; only values are mapped through the '
+         'value evaluator (C19_values); C19_stmt: @charset / non-LESS @import are kept verbatim at their position. Tie: printed model output '
+         '= real output (as parsed trees) on all 5 keyframes spellings x 1-6 frames x 3 contexts, the declaration-block at-rules with and '
+         'without a space before the brace, 7 statement forms x 3 positions, and random mixed sheets with variable and expression values.'),
+   note=BASE_NOTE + ' Open known finding C19-frame-list (comma separated frame selectors are a syntax error). At-rules written inside an ordinary rule are outside the property\'s quantifier.'),
 }
 NOT_APPLICABLE = {p: 'check under construction in this round (see DESIGN.md section 10 build order); not claimed yet' for p in
-  ['C01','C05','C10','C11','C12','C13','C14','C15','C16','C18','C19','C20']}
+  ['C01','C05','C10','C11','C12','C13','C14','C15','C16','C18','C20']}
